@@ -641,6 +641,7 @@ def DexOk (s : State) : Op → Prop
       ∀ r, remote = some r → r.poolSize < U64 ∧
         (r.livenessFallback = true → ptsSum r.poolPoints = r.totalPoolPoints ∧ r.totalPoolPoints < U64)
   | .setPool id p => PoolOk p ∧ ∀ c, c ≤ maxChainId → id ≠ holdingId c
+  | .seedNext c b => c ≤ maxChainId ∧ AM.get? s.next c = none ∧ BatchOk c b ∧ holdAmt s c + b.pending < U64
   | _ => True
 
 theorem apply_dinv {s s' : State} {op : Op} (hi : DInv s) (hok : DexOk s op) (h : apply s op = .ok s') : DInv s' := by
@@ -650,6 +651,16 @@ theorem apply_dinv {s s' : State} {op : Op} (hi : DInv s) (hok : DexOk s op) (h 
     injection h with h; subst h
     exact dinv_of_same hi rfl rfl rfl (pinv_setPool hi.pools hok.1)
       (fun c hc => by unfold holdAmt; rw [getPool_setPool_other _ _ _ _ (Ne.symm (hok.2 c hc))])
+  | seedNext c b =>
+    injection h with h; subst h
+    obtain ⟨hc, hnone, hb, hfit⟩ := hok
+    refine dinv_setNext (k := b.pending) hi hc rfl rfl rfl ?_ ?_ ?_ hb (by rw [hnone]; simp [pendOpt])
+    · exact pinv_setPool hi.pools (poolOk_amount (hi.pools _) (Nat.mod_lt _ (by decide)))
+    · show (getPool (poolAdd s (holdingId c) b.pending) (holdingId c)).amount = _
+      rw [poolAdd_self]; unfold holdAmt at hfit ⊢; rw [Nat.mod_eq_of_lt hfit]
+    · intro c' hc' hne
+      show (getPool (poolAdd s (holdingId c) b.pending) (holdingId c')).amount = _
+      rw [poolAdd_other _ _ _ _ (fun e => hne (holdingId_inj hc hc' e))]; rfl
   | create m => exact dinv_of_sellEff hi (sellEff_create h)
   | edit m => exact dinv_of_sellEff hi (sellEff_edit h)
   | delete c id => exact dinv_of_sellEff hi (sellEff_delete h)
